@@ -1,11 +1,16 @@
 //! Harness for the tracing-core / tracing properties: C01 C02 C04 C19.
+mod c01;
+mod c02;
 mod c04;
+mod hcore;
 mod c19;
 pub mod rec;
 
 fn main() {
     let args = mc::parse_args();
     let code = match args.property.as_str() {
+        "C01" => c01::run(&args),
+        "C02" => c02::run(&args),
         "C04" => c04::run(&args),
         "C19" => c19::run(&args),
         p => {
